@@ -132,5 +132,5 @@ def sort_entries(obs):
     if isinstance(obs, dict) and isinstance(obs.get("ok"), list) and all(
         isinstance(e, list) and len(e) == 3 for e in obs["ok"]
     ):
-        return {"ok": sorted(obs["ok"], key=lambda e: (e[0], e[1], e[2] if e[2] is not None else -1))}
+        return {"ok": sorted(obs["ok"], key=lambda e: (e[0] is None, e[0] or 0, e[1] or 0, e[2] if e[2] is not None else -1))}
     return obs
